@@ -42,7 +42,8 @@ structure PackAt where
   size : Nat
   deriving Repr, DecidableEq
 
-/-- `ContainerPack::new` on the region `[origin, origin+size)` of file `f` -/
+/-- `ContainerPack::new` on the region `[origin, origin+size)` of file `f`; every pack region is
+    cut with a bounds check (repaired code, D10) -/
 def containerPackOpen (f : Bytes) (origin size : Nat) : Outcome (List PackAt) := do
   let g := slice f origin size
   let h ← openHeader g .container
@@ -52,34 +53,38 @@ def containerPackOpen (f : Bytes) (origin size : Nat) : Outcome (List PackAt) :=
   (List.range ch.packCount).foldlM (fun acc k => do
     let lb ← readBlock g (ch.locatorsPos + k * 36) 32
     let l ← PackLocator.decode lb
-    pure (acc ++ [⟨l.uuid, origin + l.pos, l.size⟩])) []
+    if l.pos + l.size ≤ g.length then pure (acc ++ [⟨l.uuid, origin + l.pos, l.size⟩])
+    else .err .format) []
 
-/-- `open_as_container_pack` (repaired code, D9): an unchecked parse of the header at 0 only to
-    report a version mismatch; then the CRC-checked header at 0, else the mirrored tail. -/
+/-- `open_as_container_pack` (repaired code, D9/D10): an unchecked parse of the header at 0 only to
+    report a version mismatch; then the CRC-checked header at 0, else the mirrored tail; files too
+    small for a pack and declared sizes beyond the file are format errors. -/
 def blindOpen (f : Bytes) : Outcome (List PackAt) :=
-  if f.length < 64 then .panic "range.rs: cut_rel out of the file (file shorter than a pack header)"
-  else
-    let unchecked := PackHeader.decode (f.take 60)
-    match unchecked with
-    | .err .version => .err .version
-    | _ =>
-      let located : Outcome (PackHeader × Nat) :=
-        match (do let hd ← readBlock f 0 60; PackHeader.decode hd : Outcome PackHeader) with
-        | .ok h => .ok (h, 0)
-        | _ => do
+  let unchecked : Outcome PackHeader := if f.length < 60 then .err .format else PackHeader.decode (f.take 60)
+  match unchecked with
+  | .err .version => .err .version
+  | _ =>
+    let located : Outcome (PackHeader × Nat) :=
+      match (do let hd ← readBlock f 0 60; PackHeader.decode hd : Outcome PackHeader) with
+      | .ok h => .ok (h, 0)
+      | e =>
+        if f.length < 64 then e.map' (fun h => (h, 0))
+        else do
           let tail := (slice f (f.length - 64) 64).reverse
           let hd ← readBlock tail 0 60
           let h ← PackHeader.decode hd
-          if f.length < h.packSize then .panic "size.rs: subtraction underflow"
+          if f.length < h.packSize then .err .format
           else .ok (h, f.length - h.packSize)
-      match located with
-      | .ok (h, origin) =>
+    match located with
+    | .ok (h, origin) =>
+      if origin + h.packSize ≤ f.length then
         if h.kind = .container then containerPackOpen f origin h.packSize
         else .ok [⟨h.uuid, origin, h.packSize⟩]
-      | .err k => .err k
-      | .panic s => .panic s
-      | .hang => .hang
-      | .fault => .fault
+      else .err .format
+    | .err k => .err k
+    | .panic s => .panic s
+    | .hang => .hang
+    | .fault => .fault
 
 abbrev FS := List (String × Bytes)
 
@@ -179,5 +184,38 @@ def containerPackWrite (uuid freeData : Bytes) (packs : List (Bytes × Bytes)) :
     checkPos + 5 + 64, checkPos⟩
   let hb := block h.encode
   hb ++ block ch.encode ++ body ++ locTable ++ block (CheckInfo.none).encode ++ packTail hb
+
+end Jubako
+
+namespace Jubako
+
+/-- `ContainerPack::check` on the packs found in (a region of) a file -/
+def packsCheck (H : Bytes → Bytes) (f : Bytes) (packs : List PackAt) : Outcome Bool :=
+  packs.foldlM (fun acc p =>
+    if !acc then pure false else do
+      let g := slice f p.origin p.size
+      let hd ← readBlock g 0 60
+      let h ← PackHeader.decode hd
+      match h.kind with
+      | .manifest => manifestOpenCheck H g
+      | .directory => directoryOpenCheck H g
+      | .content => contentOpenCheck H g
+      | .container => .panic "container_pack.rs: todo!() (nested container)") true
+
+/-- `Container::check` -/
+def containerCheck (H : Bytes → Bytes) (fs : FS) (c : ContainerView) : Outcome Bool := do
+  let m ← manifestCheck H c.manifest
+  if !m then .ok false else
+  let d ← packCheck H id c.dirPack
+  if !d then .ok false else
+  (c.infos.filter (fun i => i.kind ≠ .directory)).foldlM (fun acc info =>
+    if !acc then pure false else do
+      match ← locate fs c.entryFile c.entryPacks info.uuid (locationString info.location) with
+      | none => pure true
+      | some l =>
+        -- the located reader is re-opened blindly as a (fake) container pack and checked
+        let g := bytesOfLocated fs l
+        let packs ← blindOpen g
+        packsCheck H g packs) true
 
 end Jubako
